@@ -393,7 +393,8 @@ impl<'a> CRTDetBuilder<'a> {
         let mut primes = vec![];
         let mut modp = vec![];
         let mut p: u64 = ((1 << 61) / 30) * 30 - 1;
-        'crtloop: while 60 * modp.len() < bits {
+        // A single 61-bit prime is not enough for a 60-bit determinant (see assertion below).
+        'crtloop: while 60 * modp.len() < bits || 61 * modp.len() < bits + 2 {
             // Previous prime
             p -= 30;
             while !crate::isprime64(p) {
